@@ -1,6 +1,6 @@
 """C18 — graceful shutdown waits for in-flight sessions and never loses the interrupt (partial).
 
-impl  : harness C18 through hook H4: the real `until_interrupt` future polled by hand, the real handler body run at a chosen
+impl  : the real `Ohkami::howl` in a child process interrupted by a real SIGINT (the real handler closure, the real accept loop, real sessions); and harness C18 through hook H4: the real `until_interrupt` future polled by hand, the real handler body run at a chosen
         scheduling point of a chosen poll, on the real CATCH / WAKER atomics; the real WaitGroup under add/done/poll histories
 model : Lean `Ohkami.Shutdown2.step` (handler / poller / reactor transition system), `wrun` (wait group)
 spec  : here — after the interrupt the loop must observe it: the poll during or right after which it lands returns Ready(None), or
@@ -12,6 +12,7 @@ ID = 'C18'
 GEN_DEPS = []
 RULE = ('(a) every placement of the interrupt relative to the k-th poll of the accept loop (before it / between load and swap / between swap and re-check / after it), '
         'k = 1..4 with reactor wakes before it, exhaustively; (b) wait-group histories of 0-6 sessions with polls anywhere and any completion order; '
+        '(c) the real howl in a child process under a real SIGINT with 0-3 keep-alive sessions closed in every order, one of them possibly after a handler panic; '
         'non-trivial = the interrupt lands inside a poll (points 1, 2) or the history has a poll while a session is alive; exhaustive for (a)')
 ASSUMPTIONS = ['the handler body runs atomically at the chosen scheduling point (the theorem no_lost_wakeup covers every finer interleaving on the model)',
                'a woken task is polled again (executor fairness)']
@@ -28,6 +29,14 @@ def corpus():
         for at in (0, 1, 2, 3):
             for ws in ([0] * k + [1, 1, 1], [0, 1, 0, 1, 0, 1, 0], [1] + [0] * (k + 2)):
                 out.append({'case': {'polls': [None] * k + [at] + [None, None], 'wakers': ws[:k + 3]}, 'stream': 'interleaving'})
+    # the REAL howl in a child process under a real SIGINT: k keep-alive sessions (one may have made a handler panic), closed in every order
+    import itertools
+    for k in (0, 1, 2, 3):
+        for order in (list(itertools.permutations(range(k))) if k < 3 else [(0, 1, 2), (2, 0, 1), (1, 2, 0)]):
+            out.append({'case': {'howl': {'sessions': k, 'order': list(order), 'signal': True}}, 'stream': 'howl'})
+    out.append({'case': {'howl': {'sessions': 2, 'order': [0, 1], 'panic': 0, 'signal': True}}, 'stream': 'howl'})
+    out.append({'case': {'howl': {'sessions': 2, 'order': [1, 0], 'panic': 1, 'signal': True}}, 'stream': 'howl'})
+    out.append({'case': {'howl': {'sessions': 1, 'order': [0], 'panic': 0, 'signal': False}}, 'stream': 'howl'})
     out.append({'case': {'wg': ['add', 'poll', 'drop', 'poll']}}); out.append({'case': {'wg': ['add', 'add', 'drop', 'poll', 'done', 'poll']}})
     out.append({'case': {'wg': ['poll']}}); out.append({'case': {'wg': ['add', 'poll', 'done', 'poll']}})
     out.append({'case': {'wg': ['add', 'add', 'done', 'poll', 'done', 'poll', 'poll']}})
@@ -52,6 +61,13 @@ def generate(rng, tier):
 
 def spec_check(case, out):
     if 'panic' in out: return 'panic: ' + out['panic'][:120]
+    if 'howl' in case:
+        sc = case['howl']
+        if out.get('hang') or 'error' in out: return f'the howl scenario did not finish: {str(out)[:160]}'
+        if out.get('returned_early'): return f'howl returned while a session was still open ({sc})'
+        if out.get('served_after_interrupt'): return f'a connection made after the interrupt was served ({sc})'
+        if not out.get('returned_after_all'): return f'howl did not return within 3 s after the last session ended ({sc})'
+        return None
     if 'wg' in case:
         live, want = 0, []
         for o in case['wg']:
@@ -78,12 +94,13 @@ def judge(case, out, m):
     if bad: v.append(('violation', bad))
     # `woken` is the flag of the waker THIS poll used; when the poll returns Ready(None) who else was woken (a stale waker of an earlier task) is immaterial
     norm = lambda ps: [({'ready_none': True} if isinstance(p, dict) and p.get('ready_none') else p) for p in (ps or [])]
-    if m is not None and norm(m.get('model', {}).get('polls')) != norm(out.get('polls')):
+    if m is not None and 'howl' not in case and norm(m.get('model', {}).get('polls')) != norm(out.get('polls')):
         v.append(('disagree', f'impl {out.get("polls")} model {m.get("model", {}).get("polls")}'))
     return v
 
 
 def nontrivial(case):
+    if 'howl' in case: return case['howl']['sessions'] >= 1
     if 'wg' in case:
         live = 0
         for o in case['wg']:
@@ -95,5 +112,6 @@ def nontrivial(case):
 
 
 def features(case, out):
+    if 'howl' in case: return ['howl_%d' % case['howl']['sessions']]
     if 'wg' in case: return ['wg']
     return ['interrupt_at_%s' % next((p for p in case['polls'] if p is not None), 'never')]
